@@ -129,6 +129,19 @@ def run(ctx):
     term = [s for s in st if s.rhs.cv == 0 and s.lhs.ch[1].s.endswith('nb_taskpools')]
     rd.expect(len(term) == 1 and app and f.precedes(app[0], term[0]), 'compose:terminate', term[0].loc if term else f.where(), 'array must be NULL-terminated at nb_taskpools after appending', note='append: taskpool_array[nb_taskpools] = NULL')
 
+    # growth of the member array: the byte size is a whole number of pointers, with room for the terminator written right after
+    grow = [s_ for s_ in f.stores() if s_.lhs.k == 'mem' and s_.lhs.n == 'taskpool_array' and s_.rhs is not None and any(x.k == 'call' and x.n == 'realloc' for x in s_.rhs.walk())]
+    okg = len(grow) == 1
+    if okg:
+        rc_ = [x for x in grow[0].rhs.walk() if x.k == 'call' and x.n == 'realloc'][0]
+        size = aff.norm(rc_.ch[1])
+        nbt = [k for k in size.t if len(k) == 1 and k[0].endswith('nb_taskpools')]
+        okg = rc_.ch[0].s == grow[0].lhs.s and len(nbt) == 1 and size.t[nbt[0]] == 8 and set(size.t) <= {nbt[0], ()} and size.t.get((), 0) >= 8 and size.t.get((), 0) % 8 == 0 \
+            and bool(term) and f.ordered(grow[0], term[0])
+    rd.expect(okg, 'compose:growth-size', grow[0].loc if grow else f.where(),
+              'the member array must grow to (nb_taskpools + k) pointers, k >= 1, in bytes (got %s): the terminator is stored at index nb_taskpools right after' % (grow[0].rhs.s if grow else 'no realloc'),
+              note='append: realloc to (nb_taskpools + k) * sizeof(pointer), k >= 1, before the terminator is stored')
+
     # (f) the compound must not be declared ready (and hence terminated: its pending-action count is 0 until the
     #     startup hook runs) by parsec_context_add_taskpool: it installs its own detector when it is created and
     #     declares itself ready in the startup hook, after the members were counted and before the first is enqueued.
